@@ -172,7 +172,7 @@ func Check(prop, tier string) int {
 }
 
 func isNontrivial(prop string, h History) bool {
-	ro := map[string]bool{"dryfailpre": true, "drydir": true, "dry": true, "status": true, "list": true, "listjson": true, "summary": true}
+	ro := map[string]bool{"dryforce": true, "dryfailpre": true, "drydir": true, "dry": true, "status": true, "list": true, "listjson": true, "summary": true}
 	for i, s := range h.Steps {
 		switch prop {
 		case "C12":
